@@ -88,14 +88,12 @@ func (s *NotifyFollowReader) Read(buf []byte) (int, error) {
 		// Wait for changes
 		select {
 		case <-s.eventWrite:
-			if s.f == nil && s.ReOpen { // Re-open if able and willing
-				if f, err := os.Open(s.filename); err == nil {
-					s.f = f
-				}
+			if s.ReOpen { // Re-open if able and willing
+				s.reopenIfReplaced()
 			}
 		case <-s.eventDelete:
 			if s.ReOpen {
-				s.closeFile()
+				s.reopenIfReplaced()
 			} else {
 				s.Close()
 				return 0, io.EOF
@@ -135,6 +133,23 @@ func (s *NotifyFollowReader) startWatcher() (*fsnotify.Watcher, error) {
 	}()
 
 	return watcher, nil
+}
+
+// reopenIfReplaced closes the current file if the path no longer refers to it, and opens
+// whatever is at the path now. Write and delete signals arrive on separate channels, so they
+// may be seen in either order and may be about an earlier incarnation of the file
+func (s *NotifyFollowReader) reopenIfReplaced() {
+	if s.f != nil {
+		cur, curErr := s.f.Stat()
+		now, nowErr := os.Stat(s.filename)
+		if curErr == nil && nowErr == nil && os.SameFile(cur, now) {
+			return
+		}
+		s.closeFile()
+	}
+	if f, err := os.Open(s.filename); err == nil {
+		s.f = f
+	}
 }
 
 func (s *NotifyFollowReader) closeFile() {
